@@ -41,3 +41,8 @@ pub fn make(id: &str, tier: Tier, seed: u64) -> Option<Box<dyn Monitor>> {
         _ => None,
     }
 }
+
+/// Classifies a worker crash (C05) into a known-finding key from the in-flight operation.
+pub fn classify_crash(_what: &str, _reason: &str) -> Option<&'static str> {
+    None
+}
